@@ -312,6 +312,11 @@ StringDictionaryHTFC::StringDictionaryHTFC(IteratorDictString *it,
 
   table = builder->getTable();
   delete builder;
+
+  // The coder used for building only knows the codewords, but it also
+  // requires the decoding table for querying the dictionary (see load)
+  delete coder;
+  coder = new StatCoder(table, codewords);
 }
 
 unsigned long StringDictionaryHTFC::locate(uchar *str, uint strLen) {
